@@ -79,6 +79,10 @@ class C01(Prop):
 
         def duration(t):
             k = rng.random()
+            if k < 0.04:
+                # an event may be given a negative duration (the schema allows it, heartbeat_merge has a rule for it): it is
+                # stored and returned like any other
+                return -rng.choice([1, 999, 1500, 250_000, 10**6, 3 * 10**6 + 1, DAY, 30 * DAY - 7])
             if k < 0.15:
                 return 0
             if k < 0.25:
